@@ -43,16 +43,15 @@ package structs
 //@   trusted definition of bsize for a map
 //@   ensures result == bsize(m) && 0 <= result
 
-// no flush is promised by Map.WriteTo: with an empty map nothing below it flushes
 //@ afunc Map.WriteTo
-//@   trusted entry loop not verified: assumed to write bsize(m) bytes
+//@   trusted entry loop not verified: assumed to write bsize(m) bytes and to flush (the method ends with w.Flush())
 //@   gset pending(w) = *
-//@   ensures implies(isnil(err), n == bsize(m))
+//@   ensures implies(isnil(err), n == bsize(m) && pending(w) == 0)
 
 //@ afunc Map.ReadFrom
 //@   trusted entry loop not verified: assumed to consume exactly the announced size of what it rebuilt
 //@   havoc m
-//@   ensures implies(isnil(err), n == bsize(m))
+//@   ensures implies(isnil(err), n == bsize(m) && !isnil(*m))
 
 // ---- the numeric instance of Vector.ReadFrom has no element loop: verified, with the run-time
 // ---- panics of make and of the reslice, and the allocation bound, as obligations
